@@ -1,7 +1,7 @@
 #!/bin/bash
 # usage: selftest/try.sh <patch.diff> <Cxx> [<Cyy> ...]     apply a seeded change to /repo, run the quick checks, undo it
 # prints one line per check: CAUGHT / MISSED / INCONCLUSIVE
-P="$1"; shift
+P="$(readlink -f "$1")"; shift
 cd /repo || exit 2
 if ! git diff --quiet; then echo "/repo has uncommitted changes"; exit 2; fi
 if ! git apply "$P"; then echo "PATCH-DOES-NOT-APPLY $P"; exit 2; fi
